@@ -6,3 +6,4 @@ class Plugin(HistPlugin):
     id = 'C06'
     extra_import = 'HistProps HistPropCheck'
     check_fn = 'c06_check'
+    FINDING_BITS = 1 | 2 | 8
